@@ -2661,6 +2661,10 @@ def _c09_one(seed):
                            "%s with the naive datetime %s as date" % (fn.__name__, nv.isoformat()), tz))
     for m in (moon.moonrise, moon.moonset):
         checks.append((lambda m=m: m(o, d, name), lambda m=m: m(o, d, tz), m.__name__ + " name vs object", tz))
+        awm = datetime.datetime(d.year, d.month, d.day, rng.randint(0, 23), 20, tzinfo=tz)
+        checks.append((lambda m=m, awm=awm: m(o, awm), lambda m=m: m(o, d, datetime.timezone.utc),
+                       m.__name__ + " with the aware datetime %s as the date and no zone argument vs its calendar "
+                       "date in the default zone (UTC)" % awm.isoformat(), datetime.timezone.utc))
     e = rng.uniform(95, 170)
     for di in (SunDirection.RISING, SunDirection.SETTING):
         checks.append((lambda di=di: sun.time_at_elevation(o, e, d, di, tz),
